@@ -173,6 +173,17 @@ fn case_json(seed: &Seed, e: &Edit, mutant: &[SrcFile]) -> Value {
     })
 }
 
+/// a `!` that follows `:`, `->`, `[`, `,` or `(` and is not `!=`: the never type written as a type
+fn never_in_type_position(program: &str) -> bool {
+    let b = program.as_bytes();
+    (0..b.len()).any(|i| {
+        b[i] == b'!'
+            && b.get(i + 1) != Some(&b'=')
+            && matches!(program[..i].trim_end().as_bytes().last(), Some(b':' | b'>' | b'[' | b',' | b'('))
+            && !program[i + 1..].trim_start().starts_with(|c: char| c.is_alphanumeric() || c == '(' || c == '_')
+    })
+}
+
 struct C07;
 
 impl Check for C07 {
@@ -322,6 +333,19 @@ impl Check for C07 {
                 v.class == "crash-instead-of-type-error"
                     && f.params["edit_kinds"].as_array().is_some_and(|a| a.iter().any(|k| k.as_str() == Some(kind)))
                     && f.params["panic_contains"].as_str().is_some_and(|p| v.observed["panic"].as_str().is_some_and(|o| o.contains(p)))
+            }
+            // V1: the never type `!` written in a type position acts as a wildcard. Only mutants of the
+            // never-type edit family (or edits inside a seed function declared `-> !`) whose text has a
+            // `!` in a type position, and only the listed failure classes / panic texts
+            "never-type-family" => {
+                let detail = v.case["edit"].as_str().unwrap_or("");
+                let family = kind.starts_with("n1-never") || detail.contains("[inside a function declared `-> !`]");
+                let class_ok = f.params["classes"].as_array().is_some_and(|a| a.iter().any(|c| c.as_str() == Some(v.class.as_str())));
+                let panic_ok = match f.params["panic_contains"].as_str() {
+                    Some(p) => v.observed["panic"].as_str().is_some_and(|o| o.contains(p)),
+                    None => true,
+                };
+                family && class_ok && panic_ok && never_in_type_position(v.case["program"].as_str().unwrap_or(""))
             }
             _ => false,
         }
